@@ -18,21 +18,22 @@ type LocalLock struct {
 
 // GetLocalLock returns a LocalLock with the specified name
 func GetLocalLock(ctx iface.OrdaContext, lockName string) *LocalLock {
-
-	value, loaded := localLockMap.LoadOrStore(lockName, &LocalLock{
-		ctx:      ctx,
-		mutex:    golock.NewCASMutex(),
-		lockName: lockName,
-	})
+	// only the mutex is shared between the callers of one lock name; every caller
+	// waits with its own context (a cached context of an earlier request is
+	// cancelled once that request has returned)
+	value, loaded := localLockMap.LoadOrStore(lockName, golock.NewCASMutex())
 	if loaded {
 		ctx.L().Infof("[🔒] load lock '%v'", lockName)
 	} else {
 		ctx.L().Infof("[🔒] create lock '%v'", lockName)
 	}
-	return value.(*LocalLock)
+	return &LocalLock{
+		ctx:      ctx,
+		mutex:    value.(*golock.CASMutex),
+		lockName: lockName,
+	}
 }
 
-// TryLock tries to a local lock, and returns true if it succeeds; otherwise false
 func (its *LocalLock) TryLock() bool {
 	timeCtx, cancel := ctx.WithTimeout(its.ctx, defaultLeaseTime)
 	defer cancel()
